@@ -9,6 +9,7 @@ use kolibrie::sparql_database::SparqlDatabase;
 use kvh::engine::*;
 use kvh::sparql::*;
 use kvh::update::*;
+use kvh::req_oracle::*;
 use proptest::prelude::*;
 use serde::{Deserialize, Serialize};
 use serde_json::json;
@@ -77,168 +78,6 @@ fn apply(s: &str, m: &Mutation) -> String {
         Mutation::Truncate(o) => s[..at(*o)].to_string(),
         Mutation::Append(k) => format!("{s}{}", [" }", " garbage", " €", " . ?x", "\u{301}", " #c\u{2028}", " LIMIT", " ;"][*k as usize % 8]),
     }
-}
-
-#[derive(Clone, Copy, PartialEq, Debug)]
-enum Parsed {
-    Rejected,
-    Select,
-    Update,
-    Other, // accepted without a standard SPARQL operation (RULE / REGISTER / declarations only)
-}
-
-fn classify(text: &str) -> Result<Parsed, PanicSite> {
-    catch(|| match parse_combined_query(text) {
-        Ok((rest, c)) if rest.trim().is_empty() => match c.sparql {
-            Some(SparqlOperation::Select(_)) => Parsed::Select,
-            Some(SparqlOperation::Update(_)) => Parsed::Update,
-            None => Parsed::Other,
-        },
-        _ => Parsed::Rejected,
-    })
-}
-
-fn pct(s: &str) -> String {
-    let mut o = String::new();
-    for b in s.bytes() {
-        if b.is_ascii_alphanumeric() || b"-_.~".contains(&b) {
-            o.push(b as char);
-        } else {
-            o.push_str(&format!("%{:02X}", b));
-        }
-    }
-    o
-}
-
-fn fresh_db(d: &DataSet) -> SparqlDatabase {
-    let mut db = SparqlDatabase::new();
-    load_into(&mut db, d);
-    db
-}
-
-/// All entry-point checks for one request text over one database state.
-fn check_text(o: &mut Outcome, data: &DataSet, text: &str, well_formed_select: bool, http: bool) {
-    let parsed = match classify(text) {
-        Ok(p) => p,
-        Err(_) => {
-            // parser totality is C16's subject; here the entry points decide
-            Parsed::Rejected
-        }
-    };
-    let snap0 = data.lexical();
-    let show = |t: &str| -> String { t.chars().take(400).collect() };
-    // ---- A. execute_sparql_query: never mutates, refuses updates, errors instead of crashing ----
-    {
-        let mut db = fresh_db(data);
-        let r = catch(|| execute_sparql_query(text, &mut db));
-        o.inner_evals += 1;
-        match r {
-            Err(site) => o.panic(&format!("execute_sparql_query({:?})", show(text)), &site),
-            Ok(res) => {
-                if snapshot(&db) != snap0 {
-                    o.fail("c17.query_path.mutated", format!("execute_sparql_query changed the dataset; request: {:?}", show(text)));
-                }
-                match (parsed, &res) {
-                    (Parsed::Update, Ok(_)) => o.fail("c17.query_path.update_accepted", format!("update syntax accepted on the query-only entry point: {:?}", show(text))),
-                    (Parsed::Rejected, Ok(_)) => o.fail("c17.query_path.malformed_accepted", format!("request rejected by parse_combined_query but execute_sparql_query returned Ok: {:?}", show(text))),
-                    (Parsed::Select, Err(e)) if well_formed_select => o.fail("c17.query_path.select_rejected", format!("well-formed SELECT of the supported fragment failed: {e}\n{:?}", show(text))),
-                    _ => {}
-                }
-            }
-        }
-    }
-    // ---- B. execute_sparql_update / SparqlDatabase::execute_update ----
-    for which in 0..2 {
-        let mut db = fresh_db(data);
-        let r = catch(|| if which == 0 { execute_sparql_update(text, &mut db) } else { db.execute_update(text) });
-        o.inner_evals += 1;
-        let name = ["execute_sparql_update", "SparqlDatabase::execute_update"][which];
-        match r {
-            Err(site) => o.panic(&format!("{name}({:?})", show(text)), &site),
-            Ok(Ok(_)) => {
-                if parsed != Parsed::Update {
-                    o.fail("c17.update_path.non_update_accepted", format!("{name} returned Ok for a request that is not a standard update ({:?}): {:?}", parsed, show(text)));
-                }
-            }
-            Ok(Err(_)) => {
-                if snapshot(&db) != snap0 {
-                    o.fail("c17.update_path.err_mutated", format!("{name} returned Err but changed the dataset: {:?}", show(text)));
-                }
-            }
-        }
-    }
-    // ---- C. handle_update adapter ----
-    {
-        let mut db = fresh_db(data);
-        let r = catch(|| db.handle_update(text));
-        o.inner_evals += 1;
-        match r {
-            Err(site) => o.panic(&format!("handle_update({:?})", show(text)), &site),
-            Ok(msg) => {
-                if msg == "Update Failed" && snapshot(&db) != snap0 {
-                    o.fail("c17.handle_update.failed_mutated", format!("handle_update reported failure but changed the dataset: {:?}", show(text)));
-                }
-                if parsed == Parsed::Select && snapshot(&db) != snap0 {
-                    o.fail("c17.select.mutated", format!("a SELECT sent to handle_update changed the dataset: {:?}", show(text)));
-                }
-            }
-        }
-    }
-    // ---- D. legacy entry point: every SELECT leaves the data alone ----
-    if parsed == Parsed::Select {
-        let mut db = fresh_db(data);
-        let r = catch(|| execute_query_rayon_parallel2_volcano(text, &mut db));
-        o.inner_evals += 1;
-        match r {
-            Err(site) => o.panic(&format!("execute_query_rayon_parallel2_volcano({:?})", show(text)), &site),
-            Ok(_) => {
-                if snapshot(&db) != snap0 {
-                    o.fail("c17.select.mutated", format!("a SELECT sent to execute_query_rayon_parallel2_volcano changed the dataset: {:?}", show(text)));
-                }
-            }
-        }
-    }
-    // ---- E. HTTP adapters ----
-    if http {
-        let routes: Vec<(&str, String, bool)> = vec![
-            ("GET ?query=", format!("GET /sparql?query={} HTTP/1.1\r\nHost: localhost\r\n\r\n", pct(text)), true),
-            ("POST application/sparql-query", format!("POST /sparql HTTP/1.1\r\nHost: localhost\r\nContent-Type: application/sparql-query\r\n\r\n{}", text), true),
-            ("POST form query=", format!("POST /sparql HTTP/1.1\r\nHost: localhost\r\nContent-Type: application/x-www-form-urlencoded\r\n\r\nquery={}", pct(text)), true),
-            ("POST form update=", format!("POST /sparql HTTP/1.1\r\nHost: localhost\r\nContent-Type: application/x-www-form-urlencoded\r\n\r\nupdate={}", pct(text)), false),
-            ("POST application/sparql-update", format!("POST /sparql HTTP/1.1\r\nHost: localhost\r\nContent-Type: application/sparql-update\r\n\r\n{}", text), false),
-        ];
-        for (name, req, query_route) in routes {
-            let mut db = fresh_db(data);
-            let r = catch(|| db.handle_http_request(&req));
-            o.inner_evals += 1;
-            match r {
-                Err(site) => o.panic(&format!("handle_http_request[{name}]({:?})", show(text)), &site),
-                Ok(resp) => {
-                    let changed = snapshot(&db) != snap0;
-                    if query_route && changed {
-                        o.fail("c17.http.query_route_mutated", format!("HTTP query route {name} changed the dataset: {:?}", show(text)));
-                    }
-                    // the raw-body routes cut the body at the first blank line; only judge the response when the text went through whole
-                    let whole = !text.contains("\r\n\r\n");
-                    if query_route && whole && parsed == Parsed::Update && !resp.starts_with("Query Failed") {
-                        o.fail("c17.http.query_route_update_accepted", format!("HTTP query route {name} did not refuse update syntax (response {:?}): {:?}", show(&resp), show(text)));
-                    }
-                    if !query_route && resp == "Update Failed" && changed {
-                        o.fail("c17.http.update_failed_mutated", format!("HTTP update route {name} reported failure but changed the dataset: {:?}", show(text)));
-                    }
-                    if parsed == Parsed::Select && changed {
-                        o.fail("c17.select.mutated", format!("a SELECT sent to HTTP route {name} changed the dataset: {:?}", show(text)));
-                    }
-                }
-            }
-        }
-    }
-    o.class(match parsed {
-        Parsed::Rejected => "parsed:rejected",
-        Parsed::Select => "parsed:select",
-        Parsed::Update => "parsed:update",
-        Parsed::Other => "parsed:extension-only",
-    });
 }
 
 fn fixed_corpus() -> Vec<(&'static str, String)> {
@@ -393,6 +232,42 @@ impl Part for Sweep {
     }
 }
 
+#[derive(Clone, Debug, Serialize, Deserialize)]
+struct BytesCase {
+    bytes: Vec<u8>,
+}
+
+struct FuzzInput {
+    name: &'static str,
+}
+
+impl Part for FuzzInput {
+    type Case = BytesCase;
+    fn name(&self) -> &'static str {
+        self.name
+    }
+    fn cases(&self, _: Tier) -> u32 {
+        0
+    }
+    fn strategy(&self, _: Tier) -> BoxedStrategy<BytesCase> {
+        Just(BytesCase { bytes: vec![] }).boxed()
+    }
+    fn check(&self, c: &BytesCase) -> Outcome {
+        let mut o = Outcome::new();
+        let text = String::from_utf8_lossy(&c.bytes).to_string();
+        let data = DataSet {
+            default: vec![[Tm::Iri("http://e/s0".into()), Tm::Iri("http://e/p0".into()), Tm::Iri("http://e/s1".into())], [Tm::Iri("http://e/s1".into()), Tm::Iri("http://e/tag".into()), Tm::Lit("red".into())], [Tm::Iri("http://e/s0".into()), Tm::Iri("http://e/val".into()), Tm::Num(3)]],
+            named: vec![("http://e/g0".into(), vec![[Tm::Iri("http://e/s1".into()), Tm::Iri("http://e/p0".into()), Tm::Iri("http://e/o0".into())]])],
+        };
+        check_text(&mut o, &data, &text, false, true);
+        o.nontrivial = text.len() > 8;
+        o
+    }
+    fn describe(&self, c: &BytesCase) -> serde_json::Value {
+        json!({"request": String::from_utf8_lossy(&c.bytes)})
+    }
+}
+
 fn main() {
     let mut s = Session::start(
         "C17",
@@ -409,5 +284,21 @@ fn main() {
     let cases: Vec<SweepCase> = (0..n).flat_map(|i| (0..MB.len()).map(move |ch| SweepCase { corpus_index: i, ch })).collect();
     s.run_enum(&sweep, cases.into_iter(), true);
     s.run(&Requests);
+    // saved fuzz inputs (seed corpus + crash artifacts) through the stable build, every run
+    let saved: Vec<BytesCase> = kvh::fuzzrun::saved_inputs("request_total").into_iter().filter_map(|p| std::fs::read(&p).ok()).map(|b| BytesCase { bytes: b }).collect();
+    if !saved.is_empty() {
+        s.run_enum(&FuzzInput { name: "fuzz-corpus" }, saved.into_iter(), true);
+    }
+    if s.tier == Tier::Thorough && !s.is_replay() {
+        // coverage-guided campaign (libFuzzer) with the same oracle inside the target; fixed work
+        let c = kvh::fuzzrun::run("request_total", 1_500_000, s.seed, 2048, Some("/verif/fuzz/sparql.dict").filter(|d| std::path::Path::new(d).exists()));
+        eprintln!("libfuzzer request_total: executed {} ok={}\n{}", c.executed_units, c.ok, c.log_tail);
+        let found: Vec<BytesCase> = c.new_artifacts.iter().filter_map(|p| std::fs::read(p).ok()).map(|b| BytesCase { bytes: b }).collect();
+        let part = FuzzInput { name: "libfuzzer" };
+        // every unit the campaign executed went through check_text inside the target; crash artifacts are
+        // re-judged here on the stable build before they count
+        s.run_enum(&part, found.into_iter().chain(std::iter::once(BytesCase { bytes: format!("#executed_units={}", c.executed_units).into_bytes() })), false);
+        s.note_inner("libfuzzer", c.executed_units);
+    }
     std::process::exit(s.finish());
 }
